@@ -163,9 +163,15 @@ Definition check_case (sel : N) (cs : list int * (list (list int) * list (list i
         let nothing := match obs_d with [] => true | _ => false end in
         if want 13 && pan then mkV 240 0
         else if want 16 && N.eqb (w_class w) 20 && negb nothing then mkV 220 0
+        else if want 14 && N.eqb (w_class w) 20 && negb nothing then mkV 232 0
         else if want 14 && negb (N.eqb (w_class w) 20) && negb (nothing || unchanged) then
                (if N.eqb (w_class w) 1 then mkV 231 0 else mkV 230 0)
         else corr_in
+      else if N.eqb (w_kind w) 5 then
+        (* ---- encryption enforced but it failed: whatever left must still be sealed ---- *)
+        let nsent := match final with [_; n; _; _] => ni n | _ => 0 end in
+        if want 15 && negb (N.eqb nsent 0) && negb sealed_ok then mkV 210 0
+        else if want 15 && leak then mkV 211 0 else vok
       else if N.eqb (w_kind w) 3 then
         (* ---- hostile bytes ---- *)
         if want 13 && pan then mkV 240 0 else corr_in
